@@ -63,6 +63,14 @@ pub fn snapshot(conn: &Connection) -> Snapshot {
     Snapshot(std::sync::Mutex::new(dst))
 }
 
+/// Size of a snapshot's database image in bytes.
+pub fn snapshot_bytes(snap: &Snapshot) -> u64 {
+    let c = snap.0.lock().unwrap();
+    let pages: u64 = c.query_row("PRAGMA page_count", [], |r| r.get(0)).unwrap_or(0);
+    let size: u64 = c.query_row("PRAGMA page_size", [], |r| r.get(0)).unwrap_or(4096);
+    pages * size
+}
+
 pub fn restore(conn: &mut Connection, snap: &Snapshot) {
     conn.flush_prepared_statement_cache();
     let src = snap.0.lock().unwrap();
